@@ -1012,7 +1012,8 @@ class World:
         src = self.path(src_rel)
         os.makedirs(os.path.dirname(src), exist_ok=True)
         enc = opts.get("encoding", "utf-8")
-        with open(src, "w", encoding=enc) as f:
+        src_enc = "utf-8" if op.get("encodable") is False else enc
+        with open(src, "w", encoding=src_enc) as f:
             json.dump(self.geo_source(doc), f, ensure_ascii=False, indent=op.get("src_indent"))
         if any(f["geometry"] is None for f in doc["features"]):
             self.probes["geojson_null_geometry"] += 1
@@ -1022,7 +1023,7 @@ class World:
         out = io.StringIO()
         try:
             with contextlib.redirect_stdout(out):
-                first = di.GeoJSON.read(src, encoding=enc)
+                first = di.GeoJSON.read(src, encoding=src_enc)
         except Exception as e:
             self.viol("C18", "read", f"C18.read-raise|{type(e).__name__}",
                       f"GeoJSON.read raised {e!r} on {self.geo_source(doc)!r}")
@@ -1078,7 +1079,9 @@ class World:
                 self.probes["fault_armed_not_fired"] += 1
         self.log.append({"op": "geo", "path": rel, "outcome": "ack" if err is None else type(err).__name__})
         if err is not None:
-            if not (fault and fired):
+            if isinstance(err, UnicodeEncodeError) and not op.get("encodable", True):
+                self.probes["write_failed_loudly"] += 1      # the document has no image in this encoding
+            elif not (fault and fired):
                 self.viol("C18", "write", f"C18.write-raise|{type(err).__name__}",
                           f"GeoJSON.write raised {err!r} without a fault; doc={doc!r}")
             else:
@@ -1275,6 +1278,8 @@ class Gen:
     def frame_doc(self, fmt, enc="utf-8"):
         r = self.rng
         n = r.choice([1, 1, 2, 3, self.nrows_max])
+        if r.random() < 0.02:
+            n = r.choice([300, 700])         # more than one I/O buffer / re-encoding chunk
         names = ["id", "s", "f", "b", "d", "t", "i2", "o", "n m", "ünï"]
         if self.prop == "C14":
             # few names: the same name carries different types in different files of one run,
@@ -1372,6 +1377,10 @@ class Gen:
                     props[k] = r.choice([0.5, 2.25, -1.5, 1e-3, 12345.678])
                 else:
                     props[k] = r.random() < 0.5
+            if r.random() < 0.4:
+                ks = list(props)
+                r.shuffle(ks)
+                props = {k: props[k] for k in ks}        # same members, another order
             feats.append({"properties": props, "geometry": self.geometry()})
         meta = []
         mnames = ["crs", "name", "bbox", 'we"ird', "back\\slash", "ünï" if enc != "latin-1" else "u",
@@ -1468,6 +1477,10 @@ class Gen:
         old = self.existing(["geojson"], states=("acked", "torn", "undefined"))
         op = {"op": "geo", "path": old if (old and r.random() < 0.25) else self.new_path("geojson"),
               "opts": opts, "doc": doc, "src_indent": r.choice([None, 2])}
+        if enc == "latin-1" and doc["features"] and r.random() < 0.25:
+            # a value with no image in the target encoding: the write must fail loudly (or be exact)
+            doc["features"][0]["properties"]["name"] = r.choice(["emoji \U0001f600", "日本", "ł"])
+            op["encodable"] = False
         if r.random() < 0.3:
             op["edit_then_rewrite"] = r.randrange(8)
         f = self.fault()
@@ -1581,6 +1594,14 @@ class Gen:
                 if lit.get("columns") and name not in lit["columns"]:
                     lit["columns"].append(name)
                 return lit
+            if fmt in ("csv", "parquet") and r.random() < 0.2 and \
+                    not (fmt == "csv" and info["opts"].get("header") is False):
+                cand = [c[0] for c in doc["cols"] if c[1] in ("float", "bool", "int")
+                        and not any(v is None for v in c[2])
+                        and (not lit.get("columns") or c[0] in lit["columns"])]
+                if cand:
+                    lit["dtypes"] = {r.choice(cand): "str"}
+                    return lit
             if r.random() < 0.4:
                 ints = [c[0] for c in doc["cols"] if c[1] == "int"]
                 if fmt == "csv" and info["opts"].get("header") is False:
